@@ -194,7 +194,9 @@ def rejectOracle (dflt : Aff) (init : Option Status) (txs : List Tx) (impls : Li
     | .split post pr io =>
       if !shortDecimal pre.shares then []
       else if io && pr > post && !isInteger (pre.shares * post / pr) then []
-      else bad "the split leaves a valid balance"
+      else bad "the split leaves a valid balance" ++
+        -- (C15: the same history restated in post-split terms has no such row and is not refused)
+        [("C15", s!"row {k}: the split {ratToString post}-for-{ratToString pr} of {ratToString pre.shares} shares is refused ({implMsg}) although it leaves a valid balance")]
     | .sell sh _ _ _ _ _ =>
       if sflMsg then []
       else if sh ≤ pre.shares - eps && sh ≤ allHeld - eps then bad s!"the affiliate holds {ratToString pre.shares} shares and sells {ratToString sh}"
